@@ -38,10 +38,15 @@ PaddingClaims(b) == IF Len(b) < 8 THEN {} ELSE
 ShortLies(b) == IF Len(b) < 5 THEN {} ELSE
   { SetLenField(Take(b, n), L) : n \in 4..Min(Len(b) - 1, 20), L \in {0, 1, 2, 3, 16384, 16385, 32768} }
 
+\* the same with a padding a sender would really produce: k-1 null octets and the count k, for whole words
+ZeroPaddingClaims(b) == IF Len(b) < 12 THEN {} ELSE
+  { [i \in 1..Len(b) |-> IF i = 1 THEN (IF (b[1] \div 32) % 2 = 1 THEN b[1] ELSE b[1] + 32)
+                         ELSE IF i = Len(b) THEN k ELSE IF i > Len(b) - k THEN 0 ELSE b[i]] : k \in { x \in {4, 8} : x <= Len(b) - 4 } }
+
 FirstOrder(b) ==
   Truncations(b) \cup LenLies(b) \cup LenResized(b) \cup CountChanges(b) \cup PTChanges(b)
   \cup VersionChanges(b) \cup PaddingFlip(b) \cup PaddingClaims(b) \cup ByteChanges(b, 48) \cup Extensions(b) \cup GrownFrames(b)
-  \cup ShortLies(b)
+  \cup ShortLies(b) \cup ZeroPaddingClaims(b)
 \* a cheaper family for second-order compositions
 Light(b) == Truncations(b) \cup LenLies(b) \cup CountChanges(b) \cup PaddingFlip(b) \cup GrownFrames(b)
 =============================================================================
